@@ -196,22 +196,177 @@ pub fn check(case: &Case, l: &mut Local) -> Verdict {
 pub static V: Variant = Variant { name: "general", choice_len: 400, gen, check };
 pub static VT: Variant = Variant { name: "themed", choice_len: 400, gen: gen_themed, check };
 
+// ---- bounded-exhaustive slice: ALL patterns of a small grammar x ALL haystacks in {a,b}^<=4 x every start
+
+fn t0() -> Vec<Node> {
+    vec![
+        Node::Lit(0x61),
+        Node::Lit(0x62),
+        Node::Dot,
+        Node::Class { neg: false, items: vec![ClassItem::Ch(0x61), ClassItem::Ch(0x62)] },
+        Node::Class { neg: true, items: vec![ClassItem::Ch(0x61)] },
+        Node::BackRef(0),
+        Node::Bol,
+        Node::Eol,
+        Node::Wb,
+    ]
+}
+
+fn quantifiable(n: &Node) -> bool {
+    !matches!(n, Node::Bol | Node::Eol | Node::Wb)
+}
+
+const QS: &[(u32, Option<u32>, bool)] = &[(0, Some(1), false), (0, None, false), (1, None, false), (0, None, true), (1, None, true), (0, Some(1), true), (2, Some(2), false), (1, Some(2), false), (1, Some(2), true), (0, Some(0), false), (2, None, false)];
+
+fn quantified(n: &Node) -> Vec<Node> {
+    QS.iter().map(|(min, max, lazy)| Node::Quant { body: Box::new(n.clone()), min: *min, max: *max, lazy: *lazy, braces: true }).collect()
+}
+
+pub fn small_slice(full: bool) -> &'static Vec<Case> {
+    static Q: std::sync::OnceLock<Vec<Case>> = std::sync::OnceLock::new();
+    static T: std::sync::OnceLock<Vec<Case>> = std::sync::OnceLock::new();
+    let build = move || {
+        let t = t0();
+        // level-1 items: atoms and quantified atoms
+        let mut i1: Vec<Node> = t.clone();
+        for x in t.iter().filter(|x| quantifiable(x)) {
+            i1.extend(quantified(x));
+        }
+        // bodies for groups: one level-1 item, two atoms in sequence, two atoms as alternatives (incl. an empty arm)
+        let mut bodies: Vec<Node> = i1.clone();
+        for x in &t {
+            for y in &t {
+                bodies.push(Node::Cat(vec![x.clone(), y.clone()]));
+                bodies.push(Node::Alt(vec![x.clone(), y.clone()]));
+            }
+            bodies.push(Node::Alt(vec![x.clone(), Node::Empty]));
+            bodies.push(Node::Alt(vec![Node::Empty, x.clone()]));
+        }
+        // level-2 items: the five group kinds around a body, plain and quantified
+        let mut i2: Vec<Node> = vec![];
+        for b in &bodies {
+            let groups = vec![
+                Node::Group { name: None, body: Box::new(b.clone()) },
+                Node::NonCap(Box::new(b.clone())),
+                Node::Look { behind: false, neg: false, body: Box::new(b.clone()) },
+                Node::Look { behind: true, neg: false, body: Box::new(b.clone()) },
+                Node::Look { behind: false, neg: true, body: Box::new(b.clone()) },
+                Node::Look { behind: true, neg: true, body: Box::new(b.clone()) },
+            ];
+            for g in groups {
+                let is_look = matches!(g, Node::Look { .. });
+                i2.push(g.clone());
+                if !is_look {
+                    i2.extend(quantified(&g));
+                }
+            }
+        }
+        let mut out = vec![];
+        let mut seen = std::collections::HashSet::new();
+        let mut push = |n: Node, out: &mut Vec<Case>| {
+            let pat = Printer::print(&n, Mode::Legacy);
+            if seen.insert(pat.clone()) {
+                out.push(Case { pat, flags: String::new(), hay: String::new(), hay16: vec![], start: 0, x: serde_json::Value::Null });
+            }
+        };
+        // patterns: a level-2 item alone, followed by an atom, preceded by an atom; two level-1 items; three atoms
+        for (k, g) in i2.iter().enumerate() {
+            if !full && k % 4 != 0 {
+                continue;
+            }
+            push(g.clone(), &mut out);
+            for x in &t {
+                push(Node::Cat(vec![g.clone(), x.clone()]), &mut out);
+                push(Node::Cat(vec![x.clone(), g.clone()]), &mut out);
+            }
+        }
+        for x in &i1 {
+            for y in &i1 {
+                push(Node::Cat(vec![x.clone(), y.clone()]), &mut out);
+            }
+        }
+        out
+    };
+    if full {
+        T.get_or_init(build)
+    } else {
+        Q.get_or_init(build)
+    }
+}
+
+fn gen_small(src: &mut Src, _t: Tier) -> Case {
+    let v = small_slice(false);
+    v[(src.raw() as usize).min(v.len() - 1)].clone()
+}
+
+fn check_small(case: &Case, l: &mut Local) -> Verdict {
+    static HAYS: std::sync::OnceLock<Vec<String>> = std::sync::OnceLock::new();
+    let hays = HAYS.get_or_init(|| all_strings(&[0x61, 0x62], 4));
+    let fl = Fl::parse(&case.flags);
+    let re = match compile(&case.pat, fl, false) {
+        Ok(r) => r,
+        Err(e) if is_infra_err(&e) => return Verdict::Skip("compile_infra"),
+        Err(e) => return Verdict::Fail(format!("valid small pattern rejected: {}", e)),
+    };
+    let rf = match esref::compile(&case.pat, fl) {
+        Ok(r) => r,
+        Err(_) => return Verdict::Fail("reference rejects a pattern of the small grammar (harness bug)".into()),
+    };
+    let mut matched = 0;
+    for h in hays {
+        for s in [0usize, 1] {
+            if s > h.len() {
+                continue;
+            }
+            let (want, steps) = rf.find(h, s, REF_LIMIT);
+            let want = match want {
+                Found::Aborted => continue,
+                Found::NoMatch => None,
+                Found::Match(m) => Some(m),
+            };
+            let got = match find_first(&re, h, s, 400 * steps + 200_000).0 {
+                Out::Ms(v) => v.into_iter().next(),
+                Out::Cut => continue,
+                Out::Panic(p) => return Verdict::Fail(format!("panic: {}", p)),
+                Out::Overrun(_) => continue,
+            };
+            if got != want {
+                return Verdict::Fail(format!(
+                    "on \"{}\" from {}: find_from = {} but ECMAScript semantics give {}",
+                    h,
+                    s,
+                    got.as_ref().map(|m| m.show()).unwrap_or_else(|| "no match".into()),
+                    want.as_ref().map(|m| m.show()).unwrap_or_else(|| "no match".into())
+                ));
+            }
+            if want.is_some() {
+                matched += 1;
+            }
+        }
+    }
+    l.add("pattern_haystack_pairs", 2 * hays.len() as u64);
+    Verdict::Pass { nontrivial: matched > 0 && matched < 2 * hays.len() }
+}
+
+pub static VX: Variant = Variant { name: "exhaustive_small_patterns", choice_len: 1, gen: gen_small, check: check_small };
+
 pub static VS: Variant = Variant { name: "soup_match", choice_len: 100, gen: gen_soup_match, check };
 pub static VD: Variant = Variant { name: "dup_names", choice_len: 300, gen: gen_dup_names, check };
 
 pub fn variants() -> Vec<&'static Variant> {
-    vec![&V, &VT, &VS, &VD]
+    vec![&V, &VT, &VS, &VD, &VX]
 }
 
 pub fn run(ctx: &Ctx) -> i32 {
     esref::selftest::ensure();
+    ctx.run_list(&VX, small_slice(true));
     ctx.run_variant(&V, ctx.scale(400_000, 8_000_000));
     ctx.run_variant(&VT, ctx.scale(200_000, 4_000_000));
     ctx.run_variant(&VS, ctx.scale(400_000, 6_000_000));
     ctx.run_variant(&VD, ctx.scale(200_000, 3_000_000));
     ctx.finish(
         "exploration",
-        "random ES patterns, valid by construction, over all 24 flag sets (i,m,s x none/u/v), inline modifiers, themed alphabets (ASCII, case-special, 1-4 byte, line terminators, white space, word/non-word) and themed shapes (nested empty-matchable quantifiers, lazy loops + backreferences, backreference inside its own group, captures in lookbehind, anchors under scoped m, counts at 0/1/2, scoped i); haystacks <= 8 (12) code points, random or sampled from the pattern's own language; every start offset. Also compilable token soup (the parser's special cases: legacy octal / \\c / \\u fallbacks, Annex B class ranges, reserved punctuators) and patterns with group names duplicated across alternatives and \\k references. Oracle: esref, an independent spec-shaped ECMAScript reference model (ES2025 22.2 on code-point input) re-validated on every run against a frozen corpus of V8 verdicts. Compared: start, end and every capture slot of find_from(..).next(). Non-trivial = at least two construct kinds beyond literals and a decisive search (a match, or a failed search that consumed input).",
+        "(bounded-exhaustive) ALL patterns of a small grammar - atoms {a, b, ., [ab], [^a], \\1, ^, $, \\b}, 11 quantifier shapes (greedy and lazy), the six group kinds (capture, non-capture, (?=) (?<=) (?!) (?<!)) around a one- or two-atom body or alternative, optionally quantified, preceded or followed by an atom; every pair of level-1 items - x ALL haystacks in {a,b}^<=4 x starts 0 and 1; plus random ES patterns, valid by construction, over all 24 flag sets (i,m,s x none/u/v), inline modifiers, themed alphabets (ASCII, case-special, 1-4 byte, line terminators, white space, word/non-word) and themed shapes (nested empty-matchable quantifiers, lazy loops + backreferences, backreference inside its own group, captures in lookbehind, anchors under scoped m, counts at 0/1/2, scoped i); haystacks <= 8 (12) code points, random or sampled from the pattern's own language; every start offset. Also compilable token soup (the parser's special cases: legacy octal / \\c / \\u fallbacks, Annex B class ranges, reserved punctuators) and patterns with group names duplicated across alternatives and \\k references. Oracle: esref, an independent spec-shaped ECMAScript reference model (ES2025 22.2 on code-point input) re-validated on every run against a frozen corpus of V8 verdicts. Compared: start, end and every capture slot of find_from(..).next(). Non-trivial = at least two construct kinds beyond literals and a decisive search (a match, or a failed search that consumed input).",
         &["esref (harness/src/esref) is the trusted base; its Unicode data are exported from V8/ICU (Unicode 17) and std, never from regress", "patterns on whose validity regress and esref disagree are C08's business and are skipped here (counted)", "fuel hook"],
     )
 }
